@@ -115,6 +115,26 @@ theorem query_roundtrip (sz : Nat) (host : Bytes) (labels : List Bytes) (qid qty
         ⟨queryHeader qid (if edns > 0 then 1 else 0), ⟨nameOut labels, qtype % 65536, classIN⟩, []⟩) :=
   query_pack_unpack sz host labels qid qtype edns htok hlab hfit hsz
 
+/-- The same from the labels: for the host text `l₁.l₂.….lₙ` (labels of 1..63 octets without '.'), with or without a
+trailing dot, the built query decodes to the question `l₁.l₂.….lₙ`. -/
+theorem query_roundtrip_text (sz : Nat) (labels : List Bytes) (qid qtype : Nat) (edns : Int) (trailingDot : Bool)
+    (hlab : ∀ l ∈ labels, 1 ≤ l.length ∧ l.length ≤ maxLabelSz ∧ ∀ c ∈ l, c ≠ 46)
+    (hfit : wireLen labels < nameBufSz)
+    (hsz : 12 + wireLen labels + 1 + 4 + (if edns > 0 then 11 else 0) ≤ sz) :
+    ∃ b, buildQuery sz (hostText labels ++ (if trailingDot then [46] else [])) qid qtype edns = .ok b ∧
+      messageUnpack b.pkt = .ret 0 (some
+        ⟨queryHeader qid (if edns > 0 then 1 else 0), ⟨nameOut labels, qtype % 65536, classIN⟩, []⟩) := by
+  have hd : ∀ l ∈ labels, l ≠ [] ∧ ∀ c ∈ l, c ≠ 46 := fun l hl => by
+    obtain ⟨h1, _, h3⟩ := hlab l hl
+    exact ⟨fun h => by simp [h] at h1, h3⟩
+  have htok : tokens (hostText labels ++ (if trailingDot then [46] else [])) = labels := by
+    cases trailingDot
+    · simpa using tokens_hostText labels hd
+    · simpa using tokens_hostText_dot labels hd
+  obtain ⟨b, hb, _, _, _, _, _, hdec⟩ := query_pack_unpack sz _ labels qid qtype edns htok
+    (fun l hl => ⟨(hlab l hl).1, (hlab l hl).2.1⟩) hfit hsz
+  exact ⟨b, hb, hdec⟩
+
 /-! ## where the real code departs from the property (known findings) -/
 
 /-- 66 pointer hops: `chainBuf 66` is `01 'a' 00` followed by 66 pointers, each two octets pointing to the previous
